@@ -529,7 +529,8 @@ pub fn check(prop: &str, scenarios: &[&'static dyn Scenario], tier: Tier, level:
                 continue;
             }
             reported.insert(class);
-            let (minplan, msteps) = minimise(*scn, &f.plan, &v.oracle, &env, 90);
+            let budget = if v.oracle == "no-hang" { 900 } else { 90 };
+            let (minplan, msteps) = minimise(*scn, &f.plan, &v.oracle, &env, budget);
             // verify the minimised file in a fresh child; fall back to the original
             let (final_plan, final_v, verified) = match still_fails(*scn, &minplan, &v.oracle, &env) {
                 Some(rr) => {
